@@ -68,7 +68,7 @@ def run(ctx):
             ctx.soft('correspondence:keyswitch', '%s build and model disagree, n=%d nout=%d (t,b)=(%d,%d): impl %s model %s' % (c[1], c[2][0], c[2][1], c[2][2], c[2][3], o[:60], mo[c[0]][:60]),
                      {'case': c[0][:30000], 'build': c[1], 'impl': o[:2000], 'model': mo[c[0]][:2000]})
     # real generated keys: identity of the theorem with the secret keys (exact), incl. full-size layout (t,b)=(8,2)
-    real = [(8, 9, 8, 2, 300, 1), (33, 17, 8, 2, 300, 2), (16, 630, 8, 2, 100, 3), (7, 5, 3, 10, 100, 4), (9, 8, 14, 2, 200, 5), (5, 3, 1, 1, 200, 6), (1024, 630, 8, 2, 20 if not thorough else 400, 7)]
+    real = [(8, 9, 8, 2, 300, 1), (33, 17, 8, 2, 300, 2), (16, 630, 8, 2, 100, 3), (7, 5, 3, 10, 100, 4), (9, 8, 14, 2, 200, 5), (5, 3, 1, 1, 200, 6), (1024, 630, 8, 2, 20 if not thorough else 400, 7), (6, 4, 5, 1, 200, 8), (4, 4, 15, 1, 100, 9), (3, 5, 31, 1, 100, 10), (5, 4, 4, 7, 100, 11)]
     rl = ['ksreal %d %d %d %d %d %d 1 15' % (n, no, t, b, ns, ctx.seed * 100 + sd) for (n, no, t, b, ns, sd) in real]
     for l, o in zip(rl, vlib.run_lines(exes['optim'], rl, timeout=1800)):
         ctx.count(l)
@@ -76,6 +76,8 @@ def run(ctx):
         bad, ns, maxsum, h0bad, maxrow = [int(x) for x in o.split()]
         ctx.evaluations += ns
         if bad: ctx.report('ksreal-identity', '%s: phase_out - phase_in differs from the rounding term minus the used rows\' noise on %d of %d samples' % (l, bad, ns), {'case': l, 'impl': o})
+        # every row (i,j,h>=1) of the generated key encrypts h*s_i/base^(j+1): its error is a Gaussian of stdev 2^-15 (131072 units), never 12 sigma
+        if maxrow > 12 * 131072: ctx.report('ks-row-message', '%s: a row of the key lweCreateKeySwitchKey generated is %d units away from h*s_i/base^(j+1) (noise stdev 131072 units): it encrypts something else' % (l, maxrow), {'case': l, 'impl': o})
         if h0bad: ctx.report('ks-h0-rows', '%s: %d rows with h=0 are not the trivial zero sample' % (l, h0bad), {'case': l, 'impl': o})
         ctx.hypotheses[l] = {'max_abs_sum_of_used_row_noise_units': maxsum, 'max_abs_row_noise_units': maxrow}
     if thorough:
